@@ -20,6 +20,10 @@ def r1(ctx):
     if "CurrentUid" in (ctx.prog.adt_variants("function::Function") or []):
         fn.update(oracles.FUNCTION_SPELLINGS_USERS)
     tables.string_table(ctx, FUNC_FROM_STR, fn, "function")
+    # ... and by evaluation of the two from_str functions whole (a pre-check in front of the table - a length limit, a
+    # character class - is part of what they accept)
+    tables.string_table_eval(ctx, FIELD_FROM_STR, fs, "column", non_words=("frobnicate", "", "no such column"))
+    tables.string_table_eval(ctx, FUNC_FROM_STR, fn, "function", non_words=("frobnicate", "", "no such function"))
     tables.string_table(ctx, "operators::Op::from", oracles.OP_SPELLINGS, "operator")
     tables.string_table(ctx, "operators::ArithmeticOp::from", oracles.ARITH_SPELLINGS, "arithmetic")
     tables.string_table_eval(ctx, "query::OutputFormat::from", {v: [k] for k, v in oracles.OUTPUT_FORMATS.items()}, "format")
